@@ -20,6 +20,8 @@ def run(res, tier):
     n4, bad4 = direct.leaf_refit(rng)
     bad = bad + bad4
     ev += n4
+    n_k, bad_k = direct.extra_kernel_checks(rng, 'noninterference')
+    ev += n_k; bad = bad + [dict(b, test='noninterference_kernel_approximations') for b in bad_k]
     res.coverage.update(
         refit_histories=n4,
         evaluations=len(batch.meta) + ev, distinct_nontrivial=distinct + ev,
